@@ -110,6 +110,7 @@ OBLIGATIONS = [
     native("n_c08_kdata_walls", ["C08"], "C08.kdata.walls", "KData::from(&EnergyProps)", EN + "n_c08_kdata_walls"),
     native("n_c08_kdata_windows", ["C08"], "C08.kdata.windows", "KData::from(&EnergyProps)", EN + "n_c08_kdata_windows"),
     native("n_c08_kdata_bridges", ["C08"], "C08.kdata.bridges", "KData::from(&EnergyProps)", EN + "n_c08_kdata_bridges"),
+    kani("c04_skip_default_pairs", ["C04"], "C04.skip", "bemodel::utils::{multiplier_is_1, default_1, is_true, default_true, is_default} (the skip_serializing_if / default pairs of Space, ThermalBridge, Meta)", timeout=600),
     native("n_c04_roundtrip", ["C04"], "C04.roundtrip", "Model::as_json / Model::from_json (serde derive attributes of every model type)", RN + "n_c04_roundtrip"),
     native("n_c04_shipped_models", ["C04"], "C04.shipped", "Model::from_json / Model::as_json on bemodel/tests/data/*.json", RN + "n_c04_shipped_models"),
     native("n_c11_poly", ["C11"], "C11.poly", "Polygon::area / Polygon::perimeter", RN + "n_c11_poly"),
@@ -139,6 +140,7 @@ OBLIGATIONS = [
     native("n_c17_year_expand", ["C17"], "C17.year.expand", "SchedulesDb::get_year_as_day_sch / year_values", RN + "n_c17_year_expand"),
     native("n_c17_occupancy", ["C17"], "C17.occupancy", "EnergyProps::from(&Model) (occ_spaces_hours_in_use, occ_spaces_average_load, loads_avg)", RN + "n_c17_occupancy"),
     native("n_c02_shipped_closed", ["C02"], "C02.shipped", "hulc::ctehexml::parse_with_catalog / bdl::Data::new_from_path + Model::try_from (IdMaps, cons_from_bdl, spaces/walls/windows/schedules/loads/thermostats_from_bdl) + checks::check", CV + "n_c02_shipped_closed"),
+    native("n_c02_value_edits", ["C02"], "C02.value_edits", "hulc::ctehexml::parse_with_catalog + Model::try_from (cons_from_bdl purge of unused glazings / frames / materials) on projects with one rewritten number", CV + "n_c02_value_edits", timeout=900, timeout_thorough=6000),
     native("n_c02_broken_refs", ["C02"], "C02.broken", "hulc::ctehexml::parse_with_catalog + Model::try_from on projects with one dangling name", CV + "n_c02_broken_refs"),
     native("n_c05_convert_repeat", ["C05"], "C05.convert", "hulc::ctehexml::parse_with_catalog + Model::try_from + Model::as_json (uuid_from_obj ids, collection order)", CV + "n_c05_convert_repeat", timeout=600),
     native("n_c05_ids_local", ["C05"], "C05.ids", "bemodel::utils::uuid_from_obj / IdMaps::new (ids from the element's own definition)", CV + "n_c05_ids_local", timeout=600),
@@ -152,6 +154,7 @@ OBLIGATIONS = [
     native("n_c18_tbl_layout", ["C18"], "C18.tbl", "hulc::tbl::parse", "bdl::verif_hulc_bdl::n::n_c18_tbl_layout", pkg="hulc"),
     native("n_c18_results_values", ["C18"], "C18.results", "hulc::kyg::parse, hulc::tbl::parse (Element::from_str)", "bdl::verif_hulc_bdl::n::n_c18_results_values", pkg="hulc"),
     native("n_c18_kyg_layout", ["C18"], "C18.kyg", "hulc::kyg::parse", "bdl::verif_hulc_bdl::n::n_c18_kyg_layout", pkg="hulc"),
+    kani("c19_angle_helpers_total", ["C19", "C14"], "C19.angles.total", "bemodel::utils::normalize, convert::normalize_azimuth, orientation_bdl_to_52016, Tilt::from(f32), Orientation::from(f32) for every f32 incl. inf / NaN", timeout=600),
     native("n_c19_projects", ["C19"], "C19.projects", "hulc::ctehexml::parse_with_catalog (roxmltree, bdl::Data::new, block / attribute parsers, geometry) + Model::try_from", CV + "n_c19_projects", timeout=900, timeout_thorough=14000),
     native("n_c19_legacy", ["C19"], "C19.legacy", "hulc::bdl::Data::new + Model::try_from on legacy LIDER files", CV + "n_c19_legacy", timeout=900, timeout_thorough=14000),
     native("n_c19_results", ["C19"], "C19.results", "hulc::kyg::parse, hulc::tbl::parse", CV + "n_c19_results", timeout=600, timeout_thorough=3000),
@@ -183,7 +186,7 @@ OBLIGATIONS = [
 PROPERTIES = {
     "C18": {"level": "exploration"},
     "C01": {"level": "exploration"},
-    "C19": {"level": "exploration"},
+    "C19": {"level": "fault_enumeration"},
     "C05": {"level": "exploration"},
     "C02": {"level": "exploration"},
     "C04": {"level": "exploration"},
@@ -214,14 +217,14 @@ MANIFEST_TEXT = {
     "C01": {"technique": "contract on cli_main / thor main (exit status and standard output as postcondition), observed by running the real binaries built from the scratch copy and comparing with collect_hulc_data / Model::try_from called in-process (bounded stand-in; no verifier here models process I/O)",
             "text": "Bounded: the hulc2model binary on the 12 shipped project directories x {default, --use-extra} exits 0 and its standard output is exactly one JSON document (serde_json rejects any other text around it) that loads as the model the library yields; on an empty directory, a directory without project and a missing one it exits non-zero and writes no JSON; thor -o writes byte-identical library JSON for the 12 project files. 45 process runs per check; nothing is discharged deductively.",
             "note": "Only the shipped projects are run; 'synthetic projects written by the verifier's BDL printer' of the property text are not generated. " + _TB},
-    "C19": {"technique": "contract 'returns Ok or Err, never panics, returns within 60 s' on parse_with_catalog + Model::try_from, bdl::Data::new, kyg::parse, tbl::parse and collect_hulc_data, evaluated on the real code over single-line damage of every shipped file (bounded stand-in; quick = a seeded slice, thorough = every line)",
+    "C19": {"technique": "Kani proofs that Polygon::edge_vertices / mirror_y are total (no panic for any vertex name / an empty polygon) + contract 'returns Ok or Err, never panics, returns within 60 s' on parse_with_catalog + Model::try_from, bdl::Data::new, kyg::parse, tbl::parse and collect_hulc_data, evaluated on the real code over single-line damage of every shipped file (bounded stand-in; quick = a seeded slice, thorough = every line)",
             "text": "Bounded: 8 kinds of single-line damage (line deleted / duplicated, truncation, number -> text / 1e39 / -7, block removed, reference renamed) applied to every 8th line of the 12 .ctehexml projects, every 20th line of the 56 legacy .cte files, every 4th line of the KyG / tbl files and every 6th line of the result files of two projects read through collect_hulc_data (quick, offset by VERIF_SEED); thorough applies them to every line (2.7 million damaged files). Each crash site is its own obligation clause; the crash sites in the unfinished systems parser are listed as known findings, every other site is a violation.",
             "note": "A crash is identified by source file + normalised panic message, so two unwrap() sites of one file with the same message share an identity. " + _TB},
     "C02": {"technique": "contract on Model::try_from(&CtehexmlData) written from the statement (result is a closed model with unique ids, or Err - never a panic, never a silently dropped link), evaluated on the natively compiled real parser + converter over the shipped corpus and every single renamed / removed definition (bounded stand-in)",
             "text": "Bounded: every shipped project (12 .ctehexml, 56 legacy .cte; 62 convert) yields a model whose 15 id collections are duplicate- and nil-free and whose every listed link resolves (own oracle, plus Model::check silent); every referenced definition of every shipped project renamed (two ways) or removed, one at a time (7458 edited projects): the outcome is an error, or a closed model that has lost none of the optional links of the intact project. No obligation is discharged deductively: the converter is String-keyed BTreeMap lookups over the parser's data and md5-of-Debug-text ids, beyond Kani (symbolic Data infeasible) and Verus (iterator / str code).",
             "note": "Exhaustive only over the shipped corpus and its single-definition edits; uniqueness of md5-derived ids is observed, not proved. " + _TB},
-    "C04": {"technique": "contract on the pair Model::as_json / Model::from_json (from_json(as_json(m)) == m in every field, as_json idempotent, shipped files re-serialise to the same JSON value), enumerated on the real serde code over a model with every element kind and all single / pairs of 34 optional-or-defaulted field flips (bounded stand-in)",
-            "text": "Bounded: a generated model carrying every collection, both material variants, overrides and the 'extra' block, with none / each one / each pair of 34 optional or defaulted fields flipped between absent-or-default and present-and-different (596 distinct models): loading back the serialised text gives a model equal in every field (Debug text of the whole model), and serialising again gives the identical text. The 7 shipped model files load and re-serialise to the same JSON value (numbers compared as f32), no key dropped or added. Nothing is proved deductively: the behaviour lives in serde derive attributes and serde_json's number formatting, which neither verifier can read.",
+    "C04": {"technique": "Kani proof of the serde helper pairs (a value is skipped only if it is the value the default helper gives back, every f32 / bool) + contract on the pair Model::as_json / Model::from_json (from_json(as_json(m)) == m in every field, as_json idempotent, shipped files re-serialise to the same JSON value), enumerated on the real serde code over a model with every element kind and all single / pairs of 34 optional-or-defaulted field flips (bounded stand-in)",
+            "text": "Bounded: a generated model carrying every collection, both material variants, overrides and the 'extra' block, with none / each one / each pair of 34 optional or defaulted fields flipped between absent-or-default and present-and-different (596 distinct models): loading back the serialised text gives a model equal in every field (Debug text of the whole model), and serialising again gives the identical text. The 7 shipped model files load and re-serialise to the same JSON value (numbers compared as f32), no key dropped or added. Deductive part: multiplier_is_1 / default_1, is_true / default_true and is_default agree for every f32 and bool (Kani). Which field carries which pair lives in serde derive attributes, and number formatting in serde_json: neither verifier can read those, so the rest is bounded.",
             "note": "Equality is judged on the Debug rendering (covers every field that derives Debug - all model types do). " + _TB},
     "C05": {"technique": "contracts on Model::try_from + as_json (a function of the project text only) and Model::energy_indicators (a function of the model only), evaluated on the real code by repetition, a fresh process, 16 threads and all ordered pairs of histories (bounded stand-in); no verifier here reasons about threads or processes",
             "text": "Bounded: each of the 12 shipped projects converts to byte-identical JSON twice in one process, in a fresh process and on 16 threads at once; adding an unrelated library definition (14 block kinds x 3 positions x 12 projects) changes no existing id; the 6 (project, reference model) pairs of the Makefile convert exactly to the shipped models; indicators of each of the 7 shipped models are the same JSON value alone, after any other model, and on 16 threads. Key order of map-typed results is not compared (not a value).",
